@@ -304,7 +304,7 @@ func c14Judge(b *c14Built, q c14Query, o c14Out) c14Verdict {
 		add("unknown-or-removed-generation")
 	}
 	// candW: total weight of the groups the library-version >= 2 choice considers (subnet list present)
-	totW, candW, zeroW, lead, one, bad, nsub := int64(0), int64(0), false, false, false, false, 0
+	totW, candW, zeroW, lead, one, bad := int64(0), int64(0), false, false, false, false
 	for _, g := range groups {
 		totW += int64(g.Weight)
 		if !g.SubnetsNil {
@@ -314,7 +314,6 @@ func c14Judge(b *c14Built, q c14Query, o c14Out) c14Verdict {
 			zeroW = true
 		}
 		for _, s := range g.Subnets {
-			nsub++
 			if c14LeadingZero(s) {
 				lead = true
 			}
@@ -509,8 +508,8 @@ func c14Judge(b *c14Built, q c14Query, o c14Out) c14Verdict {
 	return v
 }
 
-// c14Eval runs one query (twice: repeating a selection must not change it) and judges it.
-// It returns false when a violation was reported (known finding: carry on with the next query).
+// c14Eval runs one query, judges it, and runs it a second time (repeating a selection must not
+// change it). A violation that is listed as a known finding is only counted; the caller carries on.
 func c14Eval(t vh.Fataler, rec *vh.Rec, b *c14Built, c c14Case, cfgDigest [8]byte, q c14Query, extra ...string) (c14Out, c14Verdict) {
 	o := c14Call(b, q)
 	v := c14Judge(b, q, o)
